@@ -44,6 +44,7 @@ const (
 	PQS_TICKER     = 10 // seconds
 	PQS_FLUSH_SIZE = 100
 	PQS_CHAN_SIZE  = 1000
+	PQS_FLUSH_WAIT = 30 // seconds
 )
 
 const siglensID = -7828473396868711293
@@ -61,6 +62,7 @@ type PQSChanMeta struct {
 	writeToSegFullMeta    bool
 	writeToEmptyPqMeta    bool
 	deleteFromEmptyPqMeta bool
+	flushDone             chan struct{} // not a request: process what was received so far, then close this channel
 }
 
 type SegmentSizeStats struct {
@@ -654,6 +656,18 @@ func RemoveSegmentFromEmptyPqmeta(pqid string, segKey string) {
 	pqsChan <- PQSChanMeta{pqid: pqid, segKey: segKey, deleteFromEmptyPqMeta: true}
 }
 
+// FlushPqsRequests returns when all the requests that were added to the channel before this call
+// have been processed, i.e. written to the sfm and emptyPqMeta files
+func FlushPqsRequests() {
+	done := make(chan struct{})
+	pqsChan <- PQSChanMeta{flushDone: done}
+	select {
+	case <-done:
+	case <-time.After(PQS_FLUSH_WAIT * time.Second):
+		log.Errorf("FlushPqsRequests: the queued requests were not processed within %v seconds", PQS_FLUSH_WAIT)
+	}
+}
+
 func listenBackFillAndEmptyPQSRequests() {
 	// Listen on the channel, every PQS_TICKER seconds or if the size of the channel is PQS_FLUSH_SIZE,
 	// it would get all the data in the channel and then do the process of Backfilling PQMR files.
@@ -668,6 +682,12 @@ func listenBackFillAndEmptyPQSRequests() {
 	for {
 		select {
 		case pqsChanMeta := <-pqsChan:
+			if pqsChanMeta.flushDone != nil {
+				processBackFillAndEmptyPQSRequests(buffer[:bufferIndex])
+				bufferIndex = 0
+				close(pqsChanMeta.flushDone)
+				continue
+			}
 			buffer[bufferIndex] = pqsChanMeta
 			bufferIndex++
 			if bufferIndex == PQS_FLUSH_SIZE {
